@@ -13,10 +13,8 @@
 /// The execution path may also differ, which can be used to refine the stub
 /// logic.
 #[test]
-fn kani_concrete_playback_c19_scalar_parsers_empty_array_4092217830553749426() {
+fn kani_concrete_playback_c19_scalar_parsers_empty_array_2874670741129445619() {
     let concrete_vals: Vec<Vec<u8>> = vec![
-        // 0
-        vec![0],
     ];
     kani::concrete_playback_run(concrete_vals, c19_scalar_parsers_empty_array);
 }
